@@ -130,15 +130,30 @@ func locAddends(f *ssa.Function) (consts []int64, nonConst int) {
 	return
 }
 
-// emitLengths: the set of byte lengths f can return (non-error paths), -1 if some is unknown.
+// emitLengths: the set of byte lengths f can return on non-error paths (-1: unknown),
+// following static calls to same-repository functions up to depth 3.
 func emitLengths(f *ssa.Function) []int {
+	set := lengthSet(f, 3)
+	var out []int
+	for k := range set {
+		out = append(out, k)
+	}
+	sort.Ints(out)
+	return out
+}
+
+func lengthSet(f *ssa.Function, depth int) map[int]bool {
+	out := map[int]bool{}
 	paths, ok := enumPaths(f, 4000)
 	if !ok {
-		return []int{-1}
+		out[-1] = true
+		return out
 	}
-	set := map[int]bool{}
 	for i := range paths {
 		p := &paths[i]
+		if len(p.Ret.Results) == 0 {
+			continue
+		}
 		if len(p.Ret.Results) == 2 {
 			if e, ok := p.Ret.Results[1].(*ssa.Const); !ok || !e.IsNil() {
 				continue
@@ -148,20 +163,45 @@ func emitLengths(f *ssa.Function) []int {
 			continue
 		}
 		sh := (&shaper{p: p}).slice(p.Ret.Results[0])
-		set[sh.length()] = true
+		cur := map[int]bool{0: true}
+		for _, e := range sh {
+			var add map[int]bool
+			switch {
+			case e.Kind != bOpaque:
+				add = map[int]bool{1: true}
+			case e.N >= 0:
+				add = map[int]bool{e.N: true}
+			case e.Fn != nil && inRepo(e.Fn) && depth > 0 && e.Fn != f:
+				add = lengthSet(e.Fn, depth-1)
+				if len(add) == 0 {
+					add = map[int]bool{0: true}
+				}
+			default:
+				add = map[int]bool{-1: true}
+			}
+			next := map[int]bool{}
+			for a := range cur {
+				for b := range add {
+					if a < 0 || b < 0 {
+						next[-1] = true
+					} else {
+						next[a+b] = true
+					}
+				}
+			}
+			cur = next
+		}
+		for k := range cur {
+			out[k] = true
+		}
 	}
-	var out []int
-	for k := range set {
-		out = append(out, k)
-	}
-	sort.Ints(out)
 	return out
 }
 
 func ruleS3(c *Ctx) {
 	c.doc("S3", "where pass 1 uses a constant size rule, the emitter produces exactly the lengths pass 1 can predict")
 	type pair struct{ p1, gen string }
-	for _, pr := range []pair{{"processNoParam", "GenerateX86NoParam"}, {"processRET", "handleRET"}, {"processINT", "handleINT"}} {
+	for _, pr := range []pair{{"processNoParam", "handleNoParamOpcode"}, {"processRET", "handleRET"}, {"processINT", "handleINT"}} {
 		f := c.L.SSAFunc("internal/pass1", pr.p1)
 		g := c.L.SSAFunc("internal/codegen", pr.gen)
 		if f == nil || g == nil {
